@@ -292,6 +292,24 @@ def str_join(eng, args, kwargs, st, node):
     return [(VStr(r), st)]
 
 
+def _splitlines_join_law(eng):
+    """'\\n'.join(xs).splitlines() == xs  for a list of plain lines (S.plain_lines: no element contains a line boundary,
+    and the last element is not empty) -- a law of the two builtins, assumed (trusted base)."""
+    ctx = eng.ctx
+    if getattr(ctx, '_sj_law', False):
+        return
+    ctx._sj_law = True
+    ctx.fun('py_join', [STR, '(Seq String)'], STR)
+    ctx.fun('py_splitlines', [STR], '(Seq String)')
+    ctx.fun('S_plain_lines', ['(Seq String)'], BOOL)
+    xs = smt.bound(ctx, 'xs', '(Seq String)')
+    j = ctx.app('py_join', StrV('\n'), xs)
+    law = smt.ForAll([xs], Implies(ctx.app('S_plain_lines', xs), Eq(ctx.app('py_splitlines', j), xs)),
+                     patterns=[[ctx.app('py_splitlines', j)]])
+    ctx.fun_axioms.setdefault('py_splitlines', []).append(law)
+    eng.trusted_used.add("builtin law: '\\n'.join(xs).splitlines() == xs for plain lines xs (S.plain_lines)")
+
+
 def _join_axioms(eng):
     ctx = eng.ctx
     if 'py_join' in ctx.fun_axioms:
@@ -307,6 +325,10 @@ def _join_axioms(eng):
                                          Eq(j(sep, Concat(xs, smt.Unit(x))), Concat(j(sep, xs), sep, x))),
                    patterns=[[j(sep, Concat(xs, smt.Unit(x)))]]),
     ]
+    ys = smt.bound(ctx, 'ys', '(Seq String)')
+    ax.append(smt.ForAll([sep, xs, ys], Implies(And(Gt(Len(xs), IntV(0)), Gt(Len(ys), IntV(0))),
+                                                 Eq(j(sep, Concat(xs, ys)), Concat(j(sep, xs), sep, j(sep, ys)))),
+                         patterns=[[j(sep, Concat(xs, ys))]]))
     ctx.fun_axioms['py_join'] = ax
 
 
@@ -337,6 +359,8 @@ def str_splitlines(eng, args, kwargs, st, node):
     name = 'py_splitlines_keep' if keep else 'py_splitlines'
     eng.trusted_used.add('builtin:str.splitlines (uninterpreted %s)' % name)
     r = eng.model_app(name, [s.t], '(Seq String)')
+    if not keep:
+        _splitlines_join_law(eng)
     # every line is a substring of the text
     i = smt.bound(eng.ctx, 'i', INT)
     st.assume(smt.ForAll([i], Implies(And(Le(IntV(0), i), Lt(i, Len(r))), Contains(s.t, At(r, i))), patterns=[[At(r, i)]]))
@@ -363,6 +387,32 @@ def str_format(eng, args, kwargs, st, node):
         n_auto = len([f for f in fields if f == ''])
         if n_auto > len(args) - 1:
             return [(Raised(VExc(IndexError, {}, tag='str.format')), st)]
+        # simple templates (literal text and plain {} / {name} fields of str/int values): exact concatenation
+        pieces, ok, k = [], True, 0
+        for lit, field, spec, conv in _string.Formatter().parse(tmpl.t.lit[1]):
+            if lit:
+                pieces.append(StrV(lit))
+            if field is None:
+                continue
+            if spec or conv:
+                ok = False
+                break
+            if field == '':
+                v = args[1 + k] if 1 + k < len(args) else None
+                k += 1
+            elif field.isdigit():
+                v = args[1 + int(field)] if 1 + int(field) < len(args) else None
+            else:
+                v = kwargs.get(field)
+            if isinstance(v, VStr):
+                pieces.append(v.t)
+            elif isinstance(v, VInt):
+                pieces.append(smt.StrFromInt(v.t))
+            else:
+                ok = False
+                break
+        if ok:
+            return [(VStr(Concat(*pieces) if pieces else StrV('')), st)]
     out.append((VStr(eng.ctx.fresh('fmt', STR)), st))
     return out
 
@@ -795,6 +845,19 @@ def m_noop(eng, args, kwargs, st, node):
 
 
 import time as _time
+import math as _math
+
+
+@func(_math.log)
+def m_log(eng, args, kwargs, st, node):
+    eng.trusted_used.add('stdlib:math.log / math.ceil (floating point: opaque numbers)')
+    return [(VVal(eng.ctx.fresh('log', sort_of(('val',)))), st)]
+
+
+@func(_math.ceil)
+def m_ceil(eng, args, kwargs, st, node):
+    return [(VVal(eng.ctx.fresh('ceil', sort_of(('val',)))), st)]
+
 
 
 @func(_time.time)
@@ -861,6 +924,8 @@ def m_int(eng, args, kwargs, st, node):
         return [(v, st)]
     if isinstance(v, VBool):
         return [(VInt(Ite(v.t, IntV(1), IntV(0))), st)]
+    if isinstance(v, VVal):
+        return [(VInt(eng.model_app('py_int_of_number', [v.t], INT)), st)]
     if isinstance(v, VStr):
         eng.trusted_used.add('builtin:int(str) (uninterpreted py_int; ValueError unless py_is_int)')
         ok = eng.model_app('py_is_int', [v.t], BOOL)
